@@ -293,8 +293,8 @@ fn o4_1_can_merge_1x1() {
     std::mem::forget(b);
 }
 
-//@ harness: o4_2_merge_start props=C04 tier=quick obl=O4.2 timeout=900 mem=10
-//@ desc: CellText::merge of two one-character texts (chars unrestricted, gap -3..3, either call order): Some exactly when can_merge, and the merged text starts at the smaller column of the same row; format! is stubbed (the concatenated content is NOT observed - outside the claim)
+//@ harness: o4_2_merge_start props=C04 tier=quick obl=O4.2 timeout=1200 mem=20
+//@ desc: CellText::merge of two one-character texts on one row (chars unrestricted, gap -3..3, either call order): Some exactly when the texts occupy consecutive display columns, and the merged text starts at the smaller column of the same row; format! is stubbed (the concatenated content is NOT observed - outside the claim)
 //@ encodes: CellText::merge, CellText::can_merge
 #[kani::proof]
 #[kani::unwind(8)]
@@ -309,18 +309,18 @@ fn o4_2_merge_start() {
     kani::assume(x2 >= 0);
     let a = one_char_text(x1, y, c1);
     let b = one_char_text(x2, y, c2);
-    let can = a.can_merge(&b);
+    let expected = x1 + columns(c1) == x2 || x2 + columns(c2) == x1;
     let m = a.merge(&b);
     kani::cover!(m.is_some() && x2 < x1, "merge called right-to-left");
     kani::cover!(m.is_some() && x2 > x1, "merge called left-to-right");
     match m {
         Some(m) => {
-            assert!(can, "O4.2 merge only when can_merge");
+            assert!(expected, "O4.2 merge only at consecutive display columns");
             let lo = if x1 < x2 { x1 } else { x2 };
             assert!(m.start.x == lo && m.start.y == y, "O4.2 merged text starts at the left text's cell");
             std::mem::forget(m);
         }
-        None => assert!(!can, "O4.2 mergeable texts merge"),
+        None => assert!(!expected, "O4.2 texts at consecutive display columns merge"),
     }
     std::mem::forget(a);
     std::mem::forget(b);
